@@ -2606,7 +2606,7 @@ class Convex:
                 output += value_out
             elif self.xtype == 'T':
                 expo = self.params[0] / self.params[1]
-                output = self.multiplier*self.sign*(value_in ** expo) + value_out
+                output = self.multiplier*self.sign*(abs(value_in) ** expo) + value_out
             else:
                 raise ValueError('Unsupported convex/concave expression.')
 
